@@ -531,6 +531,24 @@ func TestC03_Truncations(t *testing.T) {
 		for cut := 236; cut <= len(b); cut++ {
 			c03.one(t, c03Case{Entry: "v4", B: b[:cut]})
 		}
+		// nested truncation: the same cuts of the DHCPv4 packet carried inside a DHCPv6 message (plain and relayed) with
+		// every enclosing length consistent — what the inner decoder refuses or tolerates must leave a usable value
+		for cut := 236; cut <= len(b); cut++ {
+			m := append([]byte{20, 1, 2, 3}, v6opt(87, b[:cut])...)
+			c03.one(t, c03Case{Entry: "v6", B: m})
+			if cut%3 == 0 {
+				c03.one(t, c03Case{Entry: "v6", B: append(append(append([]byte{12, 0}, make([]byte, 32)...), v6opt(9, m)...), v6opt(18, []byte("if0"))...)})
+			}
+		}
+	}
+	// an inner DHCPv6 message cut at every offset inside a relay message of consistent length
+	for _, b := range v6s[:min(len(v6s), 6)] {
+		if len(b) > 600 {
+			continue
+		}
+		for cut := 0; cut <= len(b); cut++ {
+			c03.one(t, c03Case{Entry: "v6", B: append(append([]byte{12, 0}, make([]byte, 32)...), v6opt(9, b[:cut])...)})
+		}
 	}
 }
 
